@@ -202,8 +202,18 @@ func (s *Store) finishSnapshotAsync(snap *jobSnapshot) (uri string, err error) {
 	// Accessing state to update completedSnapshots
 	s.stateMu.Lock()
 
+	// Publications run asynchronously: a later checkpoint may have been published
+	// while this one was still being written. Then this snapshot is already
+	// obsolete and must neither replace the newer one nor cause its removal.
+	superseded := false
+	for _, done := range s.state.completedSnapshots {
+		if done.id > snap.id {
+			superseded = true
+		}
+	}
+
 	// When a new checkpoint is finished, all previous checkpoints are obsolete.
-	if len(s.state.completedSnapshots) > 0 {
+	if !superseded && len(s.state.completedSnapshots) > 0 {
 		obsoleteIDs := make([]uint64, 0, len(s.state.completedSnapshots))
 		for _, oldSnap := range s.state.completedSnapshots {
 			obsoleteIDs = append(obsoleteIDs, oldSnap.id)
@@ -229,7 +239,9 @@ func (s *Store) finishSnapshotAsync(snap *jobSnapshot) (uri string, err error) {
 	}
 
 	// Reset the completed snapshots to remove obsolete checkpoints
-	s.state.completedSnapshots = []*jobSnapshot{snap}
+	if !superseded {
+		s.state.completedSnapshots = []*jobSnapshot{snap}
+	}
 	s.stateMu.Unlock()
 
 	s.log.Info("store wrote checkpoint", "uri", uri)
@@ -240,6 +252,13 @@ func (s *Store) finishSnapshotAsync(snap *jobSnapshot) (uri string, err error) {
 			return "", err
 		}
 		s.log.Info("store wrote savepoint", "uri", spURI)
+	}
+
+	if superseded {
+		path := filepath.Join(s.checkpointsPath, "job-"+pathSegment(snap.id)+".snapshot")
+		if err := s.fileStore.Remove(path); err != nil {
+			s.log.Error("failed to remove superseded checkpoint file", "path", path, "err", err)
+		}
 	}
 	return uri, nil
 }
